@@ -116,7 +116,8 @@ def multisig_contained(opcode: OneOf(0xae, 0xaf), script: Bytes(cls=CScript), st
     decreases(1, keys_count)
     invariant(2, i >= 1 and len(stack) == pre(len(stack)) - (pre(i) - i) and len(stack) >= i)
     decreases(2, i)
-    raises(EvalScriptError)
+    raises(EvalScriptError, ensures=len(nOpCount) == 1 and nOpCount[0] <= 201 + 20
+           and len(stack) <= old(len(stack)))
     raises(CScriptInvalidError)
     ensures(len(nOpCount) == 1 and nOpCount[0] <= 201 and nOpCount[0] >= old(nOpCount[0]))
     ensures(len(stack) <= old(len(stack)) - 1)
